@@ -432,7 +432,11 @@ class MockIncludeDirective:
         # get required section of text
         startline = self.options.get("start-line", None)
         endline = self.options.get("end-line", None)
-        file_content = "\n".join(file_content.splitlines()[startline:endline])
+        # note: only newlines separate lines (not e.g. form feeds, as for ``str.splitlines``)
+        file_lines = file_content.split("\n")
+        if not file_lines[-1]:
+            file_lines.pop()
+        file_content = "\n".join(file_lines[startline:endline])
         startline = startline or 0
         for split_on_type in ["start-after", "end-before"]:
             split_on = self.options.get(split_on_type, None)
